@@ -277,6 +277,42 @@ Proof.
 Qed.
 Print Assumptions swapped_messages_rejected.
 
+(* a single altered response scalar of VC2 (everything else equal) is rejected unless the base it multiplies is the
+   identity; `upd j x` replaces response j *)
+Theorem single_response_rejected : forall F f0 f1 fadd fmul fsub fopp fdiv finv feqb H gen,
+  is_field F f0 f1 fadd fmul fsub fopp fdiv finv -> decides_eq F feqb ->
+  forall strict w pf j x nonce sup,
+  verify_m F f0 f1 fadd fmul fsub fopp feqb H gen strict Fixed w pf nonce sup = VAccept ->
+  verify_m F f0 f1 fadd fmul fsub fopp feqb H gen strict Fixed w
+    {| p_count := p_count pf; p_mask := p_mask pf; p_aprime := p_aprime pf; p_abar := p_abar pf; p_d := p_d pf;
+       p_c1 := p_c1 pf; p_r1 := p_r1 pf; p_c2 := p_c2 pf; p_r2 := upd F j x (p_r2 pf) |} nonce sup = VAccept ->
+  (j < length (p_r2 pf))%nat ->
+  nth j (p_d pf :: h0 F gen w (p_count pf) :: hidden_of F f0 gen w pf sup) f0 = f0 \/ x = nth j (p_r2 pf) f0.
+Proof. intros; eapply single_response_lemma; eauto. Qed.
+Print Assumptions single_response_rejected.
+
+(* ---------- proof byte layout ---------- *)
+(* whatever ParseSignatureProof accepts re-serialises to exactly the input bytes: the bytes determine A', Abar, d,
+   the length field, both sub-proofs (commitment, count bytes, responses, trailing bytes) - two inputs with the same
+   parse are equal, so a single altered byte changes a parsed component or makes the parse fail *)
+Theorem layout_roundtrip : forall v bs L, parse_sigproof v bs = POk L -> layout_bytes L = bs.
+Proof. exact layout_roundtrip_lemma. Qed.
+Print Assumptions layout_roundtrip.
+
+Theorem layout_injective : forall v bs1 bs2 L,
+  parse_sigproof v bs1 = POk L -> parse_sigproof v bs2 = POk L -> bs1 = bs2.
+Proof.
+  intros v bs1 bs2 L H1 H2. rewrite <- (layout_roundtrip_lemma v bs1 L H1). apply (layout_roundtrip_lemma v bs2 L H2).
+Qed.
+Print Assumptions layout_injective.
+
+(* the payload in front: count bytes, bit-vector bytes and the rest partition the input and determine (n, bits) *)
+Theorem payload_partition : forall bs n bits rest, parse_payload bs = Some (n, bits, rest) ->
+  exists hi lo bv, bs = hi :: lo :: bv ++ rest /\ n = N.to_nat (hi * 256 + lo) /\ length bv = bv_len n /\
+                   bits = concat (map bits_of_byte (rev bv)).
+Proof. exact payload_partition_lemma. Qed.
+Print Assumptions payload_partition.
+
 (* ---------- crafted proof bytes never crash the repaired verifier; the proof buffer is left alone ---------- *)
 Theorem never_panics : forall bs, parse_sigproof Fixed bs <> PPanic.
 Proof.
